@@ -131,6 +131,19 @@ var mErrCheckWeakened = Mutant{"Load returns DecorateFile's error only under an 
 var mGroupPerComment = Mutant{"applyDecorations makes a comment group of every comment", fR, "} else if group != nil && breaksSinceComment <= 1 {\n\t\t\t\tgroup.List = append(group.List, &ast.Comment{Slash: r.cursor, Text: d})\n\t\t\t} else {", "} else {"}
 var mRawLitCommentField = Mutant{"a comment behind a multi-line raw string goes to the Comment field", fR, " && r.cursor != r.rawLiteralEnd {", " {"}
 
+// from the mutation sweep (DESIGN 8.21): one representative per rule that was added or tightened
+var mBlankNotRequired = Mutant{"blank entries of the alias table are not marked required", fR, "\t\tif alias == \"_\" {\n\t\t\timportsRequired[path] = true", "\t\tif alias != \"_\" {\n\t\t\timportsRequired[path] = true"}
+var mKeepAlways = Mutant{"every spec is kept", fR, "\t\t\tif importsRequired[path] {", "\t\t\tif true || importsRequired[path] {"}
+var mMarkInverted = Mutant{"declarations that still have specs are marked for deletion", fR, "\t\t\tif count == 0 {", "\t\t\tif count != 0 {"}
+var mFinalPassInverted = Mutant{"the final pass keeps the marked declarations", fR, "\t\t\tif deleteBlocks[decl] {", "\t\t\tif !deleteBlocks[decl] {"}
+var mConflictNoUpdate = Mutant{"the conflict loop never changes its candidate", fR, "\t\t\tcurrent = fmt.Sprintf(\"%s%d\", preferred, modifier)\n", ""}
+var mRparenDropped = Mutant{"Rparen not cleared with Lparen", fR, "\t\t\t\tblock.Lparen = false\n\t\t\t\tblock.Rparen = false\n", "\t\t\t\tblock.Lparen = false\n"}
+var mDotNameKept = Mutant{"restoreIdent keeps the qualifier of a dot-import", fR, "\t\tif name == \".\" {\n\t\t\tname = \"\"\n", "\t\tif name == \".\" {\n"}
+var mFileSizeNoComments = Mutant{"fileSize ignores the comment list", fR, "\t\t\tend = int(cg.End()) + 1\n", ""}
+var mLiteralNoLines = Mutant{"applyLiteral records the lines of no newline", fR, "\t\tif char == '\\n' {", "\t\tif char != '\\n' {"}
+var mScopeArmNoStore = Mutant{"restoreObject drops a scope-valued Decl", fR, "\t\tout.Decl = r.restoreScope(decl)", "\t\tr.restoreScope(decl)"}
+var mFsetDefaultInverted = Mutant{"RestoreFile replaces the caller's file set", fR, "\tif r.Fset == nil {", "\tif r.Fset != nil {"}
+
 // SelfTestMutants lists, per property, the mutants its check must catch.
 var SelfTestMutants = map[string][]Mutant{
 	"C01": {mTokenLen, mDropTok, mElseGuard, mFragNoChild, mNoParseComments, mFileScope, mDecKey, mCrossFile, mAvoidGroup, mEndAtPos, mInnerAtToken, mAttachedStops, mAdjustedLine, mTextLen, mCommentEnd, mLineAtNodeEnd, mHangOnlyEmpty, mHangOneLevel, mLineCommentAtEnd, mRawLitCommentField},
@@ -139,18 +152,18 @@ var SelfTestMutants = map[string][]Mutant{
 	"C04": {mSwapDecs, mEndFlag, mCondDec, mRawLitCommentField},
 	"C05": {mSpaceNoFresh, mSpaceEmpty3, mSpaceLast, mNoAdvanceNL, mLineAtNodeEnd, mLineCommentAtEnd},
 	"C06": {mCloneAlias, mCloneDropDec, mCloneShareDec, mDupFlag, mDeleteReg, mClonePath},
-	"C07": {mNoSort, mIdentNoPeriod, mResolveAll, mCgoNamed, mCgoEmptyName, mParensAlwaysDropped, mAskResolverForC, mVendorRawScan, mVendorRawIdent},
+	"C07": {mNoSort, mIdentNoPeriod, mResolveAll, mCgoNamed, mCgoEmptyName, mParensAlwaysDropped, mAskResolverForC, mVendorRawScan, mVendorRawIdent, mBlankNotRequired, mKeepAlways, mMarkInverted, mFinalPassInverted, mConflictNoUpdate, mRparenDropped, mDotNameKept},
 	"C08": {mAlwaysSort, mMergeOrder, mIdentNoPeriod, mStoreBeforeErr, mResolveAll, mCgoNamed, mCgoEmptyName, mAskResolverForC},
 	"C09": {mAvoidTypo, mForceX, mNoVendorLocal, mFieldPath, mRawFile, mDropPath, mSelName, mSelPathCond, mGoastStopEarly, mLocalPath, mGotypesC, mGoastNilFile},
-	"C10": {mDropPath, mSelName, mSelPathCond, mSelFromAlias, mForceX, mNoVendorLocal, mClonePath, mVendorRawScan, mVendorRawIdent},
+	"C10": {mDropPath, mSelName, mSelPathCond, mSelFromAlias, mForceX, mNoVendorLocal, mClonePath, mVendorRawScan, mVendorRawIdent, mBlankNotRequired, mMarkInverted, mConflictNoUpdate},
 	"C11": {mDropMapReg, mLateMapReg, mDropChildDeco, mDeleteReg, mBackMapSel},
-	"C12": {mCursorBack, mNoAdvanceNL, mAddFileEarly, mPosNotCursor, mLinesReuse, mKeepLineZero, mLineAtNodeEnd, mImplicitSemiNoPos, mNoFileExtent, mLineCommentAtEnd, mFileEndNoBase},
+	"C12": {mCursorBack, mNoAdvanceNL, mAddFileEarly, mPosNotCursor, mLinesReuse, mKeepLineZero, mLineAtNodeEnd, mImplicitSemiNoPos, mNoFileExtent, mLineCommentAtEnd, mFileEndNoBase, mFileSizeNoComments, mLiteralNoLines, mRparenDropped},
 	"C13": {mWalkDrop, mWalkOrder, mWalkNoNil},
 	"C14": {mApplyName, mApplyDrop, mIterStep, mUnsortedFiles, mWalkDrop},
 	"C15": {mNilFileGuard, mUnguardChild, mNewPanic, mRawFile, mNoPathValidation},
-	"C16": {mUnlockEarly, mGlobalWrite, mGoroutine, mNoSort, mGopkgsWritesConfig, mLinesTruncated},
+	"C16": {mUnlockEarly, mGlobalWrite, mGoroutine, mNoSort, mGopkgsWritesConfig, mLinesTruncated, mFsetDefaultInverted},
 	"C17": {mSwallowErr, mErrNoWrap, mStoreBeforeErr, mDecoDropErr, mErrCheckWeakened},
-	"C18": {mObjLate, mScopeNoOuter, mExtrasGate, mNewPkgErr, mScopeInsert},
+	"C18": {mObjLate, mScopeNoOuter, mExtrasGate, mNewPkgErr, mScopeInsert, mScopeArmNoStore},
 	"C19": {mAppendAlias, mAppendOrder, mPrependClip},
 	"C20": {mWriteFirst, mSharedBuf, mExtraWriter},
 }
